@@ -38,7 +38,7 @@ vars == <<sig, local, remote, params, pre, call, result, hist>>
 
 Sigs  == {"Stable", "HaveLocalOffer", "HaveRemoteOffer", "Closed"}
 Types == {"offer", "answer", "pranswer", "rollback"}
-DescClasses == {"fresh", "changed", "unchanged", "nofp", "badalg", "mid65535"}
+DescClasses == {"fresh", "changed", "unchanged", "nofp", "badalg", "mid65535", "otherfp"}
 
 (* The JSEP table (RFC 8829 section 3.2 without rollback; pranswer keeps the state) *)
 Trans == ( <<"Stable",          "local",  "offer">>    :> "HaveLocalOffer"  @@
@@ -73,13 +73,15 @@ NextSig(s, c) ==
 
 (* EXT (beyond the listed property): in which modes is an allowed call expected to succeed *)
 ExpectOk(m, c) ==
-  IF c.op = "set_remote" /\ c.d \in {"nofp", "badalg"} THEN m # "WebRtc" ELSE TRUE
+  IF c.op = "set_remote" /\ c.d \in {"nofp", "badalg"} THEN m # "WebRtc"
+  ELSE IF c.op = "set_remote" /\ c.d = "otherfp" THEN ~(m = "WebRtc" /\ pre = "connected")
+  ELSE TRUE
 
 Init ==
   /\ pre \in Pres
   /\ sig = "Stable"
-  /\ local  = IF pre = "fresh" THEN 0 ELSE 1
-  /\ remote = IF pre = "fresh" THEN 0 ELSE 2
+  /\ local  = (IF pre = "fresh" THEN 0 ELSE 1)
+  /\ remote = (IF pre = "fresh" THEN 0 ELSE 2)
   /\ params = 0
   /\ call = NoCall
   /\ result = "None"
